@@ -75,15 +75,22 @@ theorem observed_only_by_claim (s : State) (op : Op) (hop : ∀ w i n h k e, op 
 /-- power of the DISTINCT registered voters of a vote list -/
 def distinctPower (m : Map Oracle) (votes : List Nat) : Nat := votePower m (dedup votes)
 
-/-- PARTIAL (explicit hypothesis: no operation of the history deletes a per-oracle last nonce — no `UnbondedOracle`, or a
-tree where it keeps the key).  Then the attestation a step newly marks observed has a duplicate-free vote list, so no
+/-- same hypothesis as in C01: the tree keeps the per-oracle last nonce on unbond, or no oracle bonds again after
+`UnbondedOracle` deleted its key -/
+def NoRebond (p : Params) (ops : List Op) : Prop := unbondDeletesLastNonce = false ∨ noRebond (init p) ops = true
+
+/-- PARTIAL (explicit hypothesis `NoRebond`: no unbond → re-bond of one oracle address in the history).  Then the attestation a step newly marks observed has a duplicate-free vote list, so no
 oracle is counted twice: the DISTINCT registered voters of that very attestation hold at least `66 * lastTotalPower / 100`. -/
-theorem observed_quorum_distinct_partial (p : Params) (ops : List Op) (hops : ∀ op ∈ ops, Op.keepsLastNonce op = true)
+theorem observed_quorum_distinct_partial (p : Params) (ops : List Op) (hops : NoRebond p ops)
     (w i n h : Nat) (k : Kind) (e : Nat) (a' : Att)
     (ha : a' ∈ (step (reach p ops) (.claim w i n h k e)).1.atts) (hob : a'.observed = true)
     (hnew : ¬ ∃ b ∈ (reach p ops).atts, b.observed = true ∧ b.nonce = a'.nonce ∧ b.hash = a'.hash) :
     a'.votes.Nodup ∧ 66 * (reach p ops).lastTotalPower / 100 ≤ distinctPower (reach p ops).oracles a'.votes := by
-  have hV := vinv_step (reach p ops) (.claim w i n h k e) rfl (vinv_run _ ops hops (vinv_init p))
+  have hV0 : VInv (reach p ops) := by
+    rcases hops with h0 | h0
+    · exact vinv_run _ ops (noRebond_of_kept h0 _ ops rfl) (vinv_init p)
+    · exact vinv_run _ ops h0 (vinv_init p)
+  have hV := vinv_step (reach p ops) (.claim w i n h k e) rfl hV0
   have hnd := hV.v2.1 a' ha
   rcases observed_implies_quorum (reach p ops) w i n h k e a' ha hob with h1 | ⟨_, _, _, h4, _, _⟩
   · exact absurd h1 hnew
@@ -209,7 +216,7 @@ example : (reach wp boundary).lastTotalPower = 101 := by decide
 example : required 101 = 66 := by decide
 example : (reach wp boundary).lastObserved = 1 := by decide            -- 33 + 33 = 66 ≥ 66
 example : (reach wp (boundary.take 5)).lastObserved = 0 := by decide   -- 33 < 66
-example : ∀ op ∈ boundary, Op.keepsLastNonce op = true := by decide
+example : NoRebond wp boundary := Or.inr (by decide)
 /-- governance removal leaves the recorded total stale (strictly above the online power) -/
 example : let s := reach wp [ .gov [1, 2, 3, 4] true, .bond 1 101 201 (10 * powerReduction) true,
       .bond 2 102 202 (10 * powerReduction) true, .bond 3 103 203 (10 * powerReduction) true,
